@@ -11,9 +11,12 @@ CONSTANTS
  DevNoPattern = FALSE
  DevKeepRemoved = FALSE
  DevF13 = FALSE
+ DevVerKey = FALSE
+ DevDangEnd = FALSE
  DevDegree = FALSE
 INVARIANT FinalIsExpected
 INVARIANT CallsSound
 INVARIANT MissingIsExpected
 INVARIANT BondXorMissing
+INVARIANT LemmaTables
 CHECK_DEADLOCK FALSE
